@@ -375,4 +375,91 @@ Section Equiv.
     all: rewrite AttributeValueForObjectDef_range_eq by reflexivity; norm; pt_records; fsteps.
   Qed.
 
+  (** ================================================================ Parser helper methods (parser.go)
+      Each translated helper calls the MODEL's operations (table prims of the translator); the lemma says it IS the
+      model's operation of the same name. Together with the parseFrom lemmas above (which also go through the
+      model's operations) the trusted hand-modelled operations shrink to the ones listed in DESIGN 9.6. *)
+  Ltac units := repeat match goal with u : unit |- _ => destruct u end.
+  Ltac hsteps := norm; pt_records; repeat (first [reflexivity | progress units | fstep]).
+
+  (** peekToken is idempotent (Parser.peekKeyword and Parser.token peek again for the error position) *)
+  Lemma peek_peek : forall st t st', peek_token ilh idh F st = POk t st' -> peek_token ilh idh F st' = POk t st'.
+  Proof.
+    intros st t st'. unfold peek_token. destruct (p_look st) eqn:E.
+    - intros H; inversion H; subst. rewrite E. reflexivity.
+    - destruct (scan ilh idh F (p_sc st)) as [[t0 s0]| |]; intros H; inversion H; subst. reflexivity.
+  Qed.
+
+  Lemma TP_Parser_keyword_eq : forall kw st, Parser_keyword ilh idh F kw st = p_keyword ilh idh F kw st.
+  Proof. intros. unfold Parser_keyword, p_keyword. hsteps. Qed.
+
+  Lemma TP_Parser_peekKeyword_eq : forall st, Parser_peekKeyword ilh idh F st = peek_keyword ilh idh F st.
+  Proof.
+    intros. unfold Parser_peekKeyword, peek_keyword. norm.
+    destruct (peek_token ilh idh F st) eqn:E; try reflexivity. cbv beta iota.
+    destruct (t_typ a =? -2); cbv beta iota; try reflexivity. rewrite (peek_peek _ _ _ E). reflexivity.
+  Qed.
+
+  Lemma TP_Parser_token_eq : forall typ st, Parser_token ilh idh F typ st = p_token ilh idh F typ st.
+  Proof. intros. unfold Parser_token, p_token. hsteps. Qed.
+
+  Lemma TP_Parser_optionalToken_eq : forall typ st, Parser_optionalToken ilh idh F typ st = optional_token ilh idh F typ st.
+  Proof. intros. unfold Parser_optionalToken, optional_token. hsteps. Qed.
+
+  Lemma TP_Parser_identifier_eq : forall st, Parser_identifier ilh idh F st = p_identifier ilh idh F st.
+  Proof. intros. unfold Parser_identifier, p_identifier. hsteps. Qed.
+
+  Lemma TP_Parser_stringIdentifier_eq : forall st, Parser_stringIdentifier ilh idh F st = p_string_identifier ilh idh F st.
+  Proof. intros. unfold Parser_stringIdentifier, p_string_identifier. hsteps. Qed.
+
+  Lemma TP_Parser_uint_eq : forall st, Parser_uint ilh idh F st = p_uint ilh idh F st.
+  Proof. intros. unfold Parser_uint, p_uint. hsteps. Qed.
+
+  Lemma TP_Parser_optionalUint_eq : forall st, Parser_optionalUint ilh idh F st = optional_uint ilh idh F st.
+  Proof. intros. unfold Parser_optionalUint, optional_uint. hsteps. Qed.
+
+  Lemma TP_Parser_float_eq : forall st, Parser_float ilh idh F st = p_float ilh idh F st.
+  Proof. intros. unfold Parser_float, p_float, optional_minus. hsteps. Qed.
+
+  Lemma TP_Parser_intInRange_eq : forall lo hi st, Parser_intInRange ilh idh F lo hi st = int_in_range ilh idh F lo hi st.
+  Proof. intros. unfold Parser_intInRange, int_in_range, optional_minus. hsteps. Qed.
+
+  Lemma TP_Parser_enumValue_eq : forall values st, Parser_enumValue ilh idh F values st = enum_value ilh idh F values st.
+  Proof. intros. unfold Parser_enumValue, enum_value. hsteps. Qed.
+
+  Lemma TP_Parser_optionalObjectType_eq : forall st,
+    Parser_optionalObjectType ilh idh F st = optional_object_type ilh idh F st.
+  Proof. intros. unfold Parser_optionalObjectType, optional_object_type. hsteps. Qed.
+
+  Lemma TP_Parser_messageID_eq : forall st, Parser_messageID ilh idh F st = p_message_id ilh idh F st.
+  Proof. intros. unfold Parser_messageID, p_message_id. hsteps. Qed.
+
+  Lemma TP_Parser_signalValueType_eq : forall st, Parser_signalValueType ilh idh F st = p_small_enum ilh idh F 2 st.
+  Proof. intros. unfold Parser_signalValueType, p_small_enum. hsteps. Qed.
+
+  Lemma TP_Parser_environmentVariableType_eq : forall st,
+    Parser_environmentVariableType ilh idh F st = p_small_enum ilh idh F 2 st.
+  Proof. intros. unfold Parser_environmentVariableType, p_small_enum. hsteps. Qed.
+
+  Lemma TP_Parser_attributeValueType_eq : forall st,
+    Parser_attributeValueType ilh idh F st = p_attribute_value_type ilh idh F st.
+  Proof. intros. unfold Parser_attributeValueType, p_attribute_value_type. hsteps. Qed.
+
+  Lemma TP_Parser_accessType_eq : forall st, Parser_accessType ilh idh F st = p_access_type ilh idh F st.
+  Proof. intros. unfold Parser_accessType, p_access_type. hsteps. Qed.
+
+  Lemma Parser_discardLine_loop_eq : forall f st, Parser_discardLine_loop1 ilh idh F f st = discard_loop ilh idh F f st.
+  Proof.
+    induction f; intros; [reflexivity|]. cbn [Parser_discardLine_loop1 discard_loop]. norm.
+    destruct (next_token ilh idh F st); try reflexivity.
+    all: cbv beta iota; destruct (t_typ a =? 10); cbv beta iota; try reflexivity;
+         destruct (t_typ a =? -1); cbv beta iota; [reflexivity|apply IHf].
+  Qed.
+
+  Lemma TP_Parser_discardLine_eq : forall st, Parser_discardLine ilh idh F st = discard_line ilh idh F st.
+  Proof.
+    intros. unfold Parser_discardLine, discard_line. norm. unfold use_whitespace. cbv beta iota.
+    rewrite Parser_discardLine_loop_eq. destruct (discard_loop ilh idh F F _); reflexivity.
+  Qed.
+
 End Equiv.
